@@ -88,7 +88,7 @@ fn il_all(t: Tier) -> Vec<IlCase> {
 }
 
 fn il_strategy(_t: Tier) -> BoxedStrategy<IlCase> {
-    let dim = || prop_oneof![2 => Just(1usize), 5 => 1usize..=12, 2 => 13usize..=64];
+    let dim = || prop_oneof![4 => Just(1usize), 10 => 1usize..=12, 4 => 13usize..=64, 1 => 65usize..=1100];
     let small = (dim(), dim(), any::<bool>(), any::<u32>(), 0..LAYOUTS, prop_oneof![3 => Just(0usize), 2 => 1usize..=12]).prop_map(|(columns, rows, backward, salt, layout, warm_rows)| IlCase { columns, rows, backward, salt, layout, warm_rows });
     // blocks of more than 2^16 elements: few columns and very many rows, or the other way round
     let big = (prop_oneof![Just(2usize), Just(3), Just(5)], 22_000usize..=35_000, any::<bool>(), any::<bool>(), any::<u32>(), 0..LAYOUTS).prop_map(|(a, b, swap, backward, salt, layout)| {
@@ -197,7 +197,7 @@ pub struct PuCase {
 }
 
 fn pu_strategy(_t: Tier) -> BoxedStrategy<PuCase> {
-    (proptest::collection::vec(any::<bool>(), 1..=8), any::<u16>(), 1usize..=6, 0usize..=6, 0..LAYOUTS, prop_oneof![3 => Just(0usize), 2 => 1usize..=6])
+    (prop_oneof![7 => proptest::collection::vec(any::<bool>(), 1..=8), 1 => proptest::collection::vec(any::<bool>(), 9..=16)], any::<u16>(), prop_oneof![16 => 1usize..=6, 1 => 7usize..=64, 1 => 65usize..=3000], 0usize..=6, 0..LAYOUTS, prop_oneof![3 => Just(0usize), 2 => 1usize..=6])
         .prop_map(|(mut pattern, k, block, extra, layout, warm_block)| {
             // at least one true, by construction
             if !pattern.iter().any(|&b| b) {
@@ -315,7 +315,7 @@ pub fn property() -> Property {
             }),
             Box::new(Sub {
                 name: "interleaver-random",
-                rule: "random shapes up to 64 x 64 (degenerate C = 1 / R = 1 weighted up; one case in 250 a block of 44 000 - 175 000 elements, 2/3/5 columns by 22 000 - 35 000 rows or transposed), both directions, random label salt, all six input layouts, 40 % of the cases on an object that first processed another block length; same oracle",
+                rule: "random shapes up to 64 x 64, one dimension in nineteen 65..=1100 (degenerate C = 1 / R = 1 weighted up; one case in 250 a block of 44 000 - 175 000 elements, 2/3/5 columns by 22 000 - 35 000 rows or transposed), both directions, random label salt, all six input layouts, 40 % of the cases on an object that first processed another block length; same oracle",
                 cases: |t| t.pick(50_000, 1_000_000),
                 strategy: il_strategy,
                 check: check_il,
@@ -323,7 +323,7 @@ pub fn property() -> Property {
             }),
             Box::new(Sub {
                 name: "puncturer",
-                rule: "boolean patterns of length 1..=8 with at least one true (by construction), block size 1..=6, all six input layouts (ArrayBase views: reversed, strided, offset), 40 % of the cases on an object that first processed a codeword of another block size: puncture keeps exactly the true blocks in order; depuncture puts them back with neutral values (i64 0, f64 exactly +0.0) in the removed blocks; rate = pattern length / kept blocks; lengths not divisible by the pattern length (puncture) or by the number of kept blocks (depuncture) give Err, never a panic or a shortened vector, including every length below the pattern length / the number of kept blocks (length 0 gives an empty result); non-trivial = something removed",
+                rule: "boolean patterns of length 1..=8 (one in eight: 9..=16) with at least one true (by construction), block size 1..=6 (one in nine: 7..=64 or 65..=3000), all six input layouts (ArrayBase views: reversed, strided, offset), 40 % of the cases on an object that first processed a codeword of another block size: puncture keeps exactly the true blocks in order; depuncture puts them back with neutral values (i64 0, f64 exactly +0.0) in the removed blocks; rate = pattern length / kept blocks; lengths not divisible by the pattern length (puncture) or by the number of kept blocks (depuncture) give Err, never a panic or a shortened vector, including every length below the pattern length / the number of kept blocks (length 0 gives an empty result); non-trivial = something removed",
                 cases: |t| t.pick(1_000_000, 30_000_000),
                 strategy: pu_strategy,
                 check: check_pu,
